@@ -247,6 +247,28 @@ def clashing_names(seed=0):
     oe = ObservableEvaluator(3, [SigmaZ(), oz], num_samples=8, burn_in=1, steps=1)
     st.fit(data, epochs=6, pos_batch_size=2, neg_batch_size=2, k=1, lr=0.05, callbacks=[me, oe])
     fails = []
+    # every accessor of the evaluators against the raw records of this run
+    try:
+        recs = oe.past_values
+        for nm in ("SigmaZ", "period"):
+            stats = oe[nm]
+            for stat, plural in (("mean", "means"), ("variance", "variances"), ("std_error", "std_errors")):
+                want = [float(v[nm][stat]) for _, v in recs]
+                for form, arr in ((stat, getattr(stats, stat)), (plural, getattr(stats, plural)), ("[%r]" % stat, stats[stat])):
+                    if [float(x) for x in arr] != want:
+                        fails.append(("ObservableEvaluator[%r].%s is not the list of recorded values" % (nm, form), None))
+            if oe.get_value(nm) != recs[-1][1][nm] or oe.get_value(nm, 0) != recs[0][1][nm] or oe.get_value(nm, -len(recs)) != recs[0][1][nm]:
+                fails.append(("ObservableEvaluator.get_value(%r[, index]) is not the record at that index (default: the last one)" % nm, None))
+        if [int(e) for e in oe.epochs] != [e for e, _ in recs] or len(oe) != len(recs) or oe.names != ["SigmaZ", "period"]:
+            fails.append(("ObservableEvaluator.epochs / len / names disagree with the records", None))
+        empty = ObservableEvaluator(3, [SigmaZ()])
+        if len(empty) != 0 or len(empty["SigmaZ"].means) != 0 or len(empty["SigmaZ"]["variance"]) != 0 or len(empty.epochs) != 0:
+            fails.append(("accessors of an evaluator without records are not empty", None))
+        for nm in ret:
+            if float(me.get_value(nm)) != ret[nm][-1] or float(me.get_value(nm, 0)) != ret[nm][0] or float(me.get_value(nm, -2)) != ret[nm][-2]:
+                fails.append(("MetricEvaluator.get_value(%r[, index]) is not the value recorded at that index" % nm, None))
+    except Exception as e:                           # noqa: BLE001
+        fails.append(("an accessor of the evaluators raised %r" % (e,), None))
     for nm in ret:
         try:
             got = [float(x) for x in me[nm]]
